@@ -1793,6 +1793,21 @@ impl<Front: SocketHandler + std::fmt::Debug, L: ListenerHandler + L7ListenerHand
                 }
                 backend.end_stream(stream_id, &mut self.context);
             }
+            // The timeout of one backend says nothing about the streams the other
+            // backends of a multiplexed session still serve: a stream waiting for
+            // (or draining) another backend keeps the session open. Closing here
+            // sent the TLS close_notify before that stream's own answer (its 504
+            // at its own backend timeout included), so the client saw a bare close.
+            if should_close
+                && !should_write
+                && self.context.streams.iter().any(|stream| match stream.state {
+                    StreamState::Link | StreamState::Linked(_) => true,
+                    StreamState::Unlinked => !stream.back.is_completed(),
+                    StreamState::Idle | StreamState::Recycle => false,
+                })
+            {
+                should_close = false;
+            }
             // Re-arm the backend timeout if the session stays alive (draining streams).
             // Without this, the timeout is consumed and the session becomes immortal
             // until the zombie checker runs.
